@@ -21,6 +21,7 @@ let string_of_pc = function
   | PAccFree c -> Printf.sprintf "accept:free-due %d" (int_of_nat c)
   | PAccClose c -> Printf.sprintf "accept:close-due %d" (int_of_nat c)
   | PAccNoAlloc -> "accept:noalloc" | PWakeReg c -> Printf.sprintf "wake:registered %d" (int_of_nat c)
+  | PWake -> "on_wake (queue mutex held)" | PWakeCb -> "on_wake:cb_wake-due"
   | PRel (c, _) -> Printf.sprintf "release_ctx %d" (int_of_nat c)
   | PRelClose (c, _) -> Printf.sprintf "release_ctx %d:close-due" (int_of_nat c)
   | PRelFree (c, _) -> Printf.sprintf "release_ctx %d:free-due" (int_of_nat c)
@@ -52,17 +53,66 @@ let accept_sock (trace : string list) : unit =
         reject l why in
     go () in
   let nctx () = List.length !st.ctxs in
-  List.iter (fun l ->
+  (* hand-over: "hand c" is logged before muggle_socket_evloop_add_ctx is called, "handed c" after
+     it returned; the enqueue lies in between.  A context is [pending] from its "hand" line until
+     the model has enqueued it: at its "handed" line at the latest, or earlier when on_wake is
+     seen to register it (its "reg" line comes before the "wake" line that ends this on_wake). *)
+  let pending : (int, unit) Hashtbl.t = Hashtbl.create 8 in
+  let tr = Array.of_list trace in
+  let enqueue l (c : int) : bool =
+    let rec go budget =
+      if try_ev (EHand (nat c)) None then (Hashtbl.remove pending c; true)
+      else if budget > 0 && (try_ev ETauRel None || try_ev ETauWakeUnlock None) then go (budget - 1)
+      else (reject l (Printf.sprintf "hand-over of context %d cannot have happened here" c); false) in
+    go 1000 in
+  (* the wake-up is dispatched: everything on_wake is going to register was enqueued before *)
+  let wake_begin l (i : int) : bool =
+    let good = ref true and j = ref i and stop = ref false in
+    while !good && not !stop && !j < Array.length tr do
+      (match words tr.(!j) with
+       | ["wake"] -> stop := true
+       | ["reg"; c; _] when Hashtbl.mem pending (int_of_string c) -> good := enqueue l (int_of_string c)
+       | _ -> ());
+      incr j
+    done;
+    !good && (try_ev ETauWakeBegin None || (reject l "wake-up handling cannot start here"; false)) in
+  let idle () = (match !st.pc with PIdle -> true | _ -> false) in
+  Array.iteri (fun i l ->
     if !ok then begin
       match words l with
+      | ["hand"; c] -> Hashtbl.replace pending (int_of_string c) (); print_endline l
+      | ["handed"; c] ->
+        let c = int_of_string c in
+        if not (Hashtbl.mem pending c) || enqueue l c then print_endline l
+      | ["reg"; c; r] when int_of_string c >= 0 ->
+        let e = EReg (nat (int_of_string c), int_of_string r = 0) in
+        let rec go budget =
+          if try_ev e None then print_endline l
+          else if budget > 0 && idle () then (if wake_begin l i then go (budget - 1))
+          else if budget > 0 && try_ev ETauRel None then go (budget - 1)
+          else reject l "registration not enabled in the model (not the head of the hand-over queue / not in the accept path)" in
+        go 1000
+      | ["wake"] ->
+        let rec go budget =
+          if try_ev EWake None then print_endline l
+          else if budget > 0 && idle () then (if wake_begin l i then go (budget - 1))
+          else if budget > 0 && try_ev ETauRel None then go (budget - 1)
+          else if budget > 0 && try_ev ETauWakeUnlock None then go (budget - 1)
+          else
+            (match !st.pc, !st.queue with
+             | PWake, c :: _ ->
+               reject l (Printf.sprintf "on_wake returned with a non-empty hand-over queue (context %d still queued, %d in all)"
+                           (int_of_nat c) (List.length !st.queue))
+             | _ -> reject l "cb_wake not enabled in the model") in
+        go 1000
+      | ["release"; c] when Hashtbl.mem pending (int_of_string c) ->
+        (* on_exit released it before the handing thread logged the return of add_ctx *)
+        if enqueue l (int_of_string c) then fire l (ERelease (nat (int_of_string c))) None
       | ["halloc"; c; k] ->
         if int_of_string c <> nctx () then reject l "context id is not the next id"
         else if k = "L" then fire l (EHalloc (KListen, nat 0)) None
         else fire l (EHalloc (KConn, nat (int_of_string k))) None
-      | ["hand"; c] -> fire l (EHand (nat (int_of_string c))) None
-      | ["reg"; c; r] ->
-        if int_of_string c < 0 then reject l "registration of an unknown context"
-        else fire l (EReg (nat (int_of_string c), int_of_string r = 0)) None
+      | ["reg"; _; _] -> reject l "registration of an unknown context"
       | ["addctx"; c] -> fire l (EAddctx (nat (int_of_string c))) None
       | ["accepted"] -> fire l EAccepted None
       | ["accepterr"; c] -> fire l (EAccepterr (nat (int_of_string c))) None
@@ -92,11 +142,11 @@ let accept_sock (trace : string list) : unit =
         let h = match rest with h :: _ -> h | [] -> "" in
         fire l (ESend (nat (int_of_string k), bytes_of_hex h)) None
       | ["cclose"; k] -> fire l (EPclose (nat (int_of_string k))) None
-      | ("cconn" | "cfail" | "sendfail") :: _ -> print_endline l
+      | ("cconn" | "cfail" | "sendfail" | "await" | "stalled" | "unstall") :: _ -> print_endline l
       | "F" :: _ -> ()
       | [] -> ()
       | _ -> reject l "no model event for this line"
-    end) trace;
+    end) tr;
   if !ok then begin
     let s = !st in
     List.iteri (fun i x ->
